@@ -18,6 +18,7 @@ package main
 import (
 	"bufio"
 	"bytes"
+	"encoding/hex"
 	"crypto/sha256"
 	"fmt"
 	"strconv"
@@ -84,6 +85,10 @@ type sfeOrc struct {
 }
 
 type sfeOp struct {
+	// AI: txid (internal order), index, seq, hlock, tlock; AW: k, wu
+	txid                     []byte
+	index, seq, hlock, tlock uint32
+	wu                       *transaction.TxOutput
 	kind    string
 	k       int
 	sig, pk []byte
@@ -102,6 +107,7 @@ type sfeCase struct {
 	outs      []sfeOut
 	orc       []sfeOrc
 	ops       []sfeOp
+	added     map[int]*transaction.TxOutput // witness utxos given by AW operations to inputs added by AI
 }
 
 // optional byte string: "~" nil, "-" empty non-nil
@@ -175,6 +181,9 @@ func sfeReadIn(t *Toks) sfeIn {
 		in.nw = readTx(t)
 	case 2:
 		in.wu = sfeReadTxOut(t)
+	case 3: // both fields (psetv2 allows it)
+		in.nw = readTx(t)
+		in.wu = sfeReadTxOut(t)
 	}
 	in.sht = uint32(t.U64())
 	in.rs = sfeReadOpt(t)
@@ -189,6 +198,9 @@ func sfeWriteIn(b *sb, in *sfeIn) {
 	case 1:
 		writeTx(b, in.nw)
 	case 2:
+		sfeWriteTxOut(b, in.wu)
+	case 3:
+		writeTx(b, in.nw)
 		sfeWriteTxOut(b, in.wu)
 	}
 	b.addn(uint64(in.sht))
@@ -343,6 +355,19 @@ func sfeReadTail(t *Toks, c *sfeCase) {
 			op.pk = sfeReadHex(t)
 			op.sig = sfeReadHex(t)
 			op.leaf = sfeReadHex(t)
+		case "AI":
+			op.txid = sfeReadHex(t)
+			op.index = uint32(t.U64())
+			op.seq = uint32(t.U64())
+			op.hlock = uint32(t.U64())
+			op.tlock = uint32(t.U64())
+		case "AW":
+			op.k = t.Int()
+			op.wu = sfeReadTxOut(t)
+			if c.added == nil {
+				c.added = map[int]*transaction.TxOutput{}
+			}
+			c.added[op.k] = op.wu
 		}
 		c.ops = append(c.ops, op)
 	}
@@ -376,6 +401,15 @@ func sfeWriteTail(b *sb, c *sfeCase) {
 			b.addh(op.pk)
 			b.addh(op.sig)
 			b.addh(op.leaf)
+		case "AI":
+			b.addh(op.txid)
+			b.addn(uint64(op.index))
+			b.addn(uint64(op.seq))
+			b.addn(uint64(op.hlock))
+			b.addn(uint64(op.tlock))
+		case "AW":
+			b.addn(uint64(op.k))
+			sfeWriteTxOut(b, op.wu)
 		}
 	}
 }
@@ -529,6 +563,9 @@ func (c *sfeCase) build2() *psetv2.Pset {
 
 // the output spent by input k, from the case description
 func (c *sfeCase) prevout(k int) *transaction.TxOutput {
+	if k >= len(c.ins) {
+		return c.added[k]
+	}
 	in := &c.ins[k]
 	if in.wu != nil {
 		return in.wu
@@ -597,9 +634,14 @@ func sfeStatus(err error) string {
 
 // ---------------------------------------------------------------- run
 
+func sfeInputArgs(op *sfeOp) psetv2.InputArgs {
+	return psetv2.InputArgs{Txid: hex.EncodeToString(elementsutil.ReverseBytes(op.txid)), TxIndex: op.index,
+		Sequence: op.seq, HeightLock: op.hlock, TimeLock: op.tlock}
+}
+
 func sfeTouched(op *sfeOp) bool {
 	switch op.kind {
-	case "S", "F", "M", "TK", "TS":
+	case "S", "F", "M", "TK", "TS", "AW":
 		return true
 	}
 	return false
@@ -689,6 +731,10 @@ func runSfe2(t *Toks) string {
 			s := &psetv2.Signer{Pset: p}
 			err = s.SignTaprootInputTapscriptSig(op.k, psetv2.TapScriptSig{
 				PartialSig: psetv2.PartialSig{PubKey: op.pk, Signature: op.sig}, LeafHash: op.leaf})
+		case "AI":
+			err = (&psetv2.Updater{Pset: p}).AddInputs([]psetv2.InputArgs{sfeInputArgs(op)})
+		case "AW":
+			err = (&psetv2.Updater{Pset: p}).AddInWitnessUtxo(op.k, op.wu)
 		case "H":
 			var s string
 			s, err = p.ToBase64()
@@ -740,8 +786,8 @@ func sfeSatLine(c *sfeCase, tx, unsigned *transaction.Transaction) string {
 	if sfeFieldDiff(tx, unsigned) != "" {
 		return "na"
 	}
-	prev := make([]*transaction.TxOutput, len(c.ins))
-	for k := range c.ins {
+	prev := make([]*transaction.TxOutput, len(tx.Inputs))
+	for k := range tx.Inputs {
 		prev[k] = c.prevout(k)
 	}
 	s := ""
@@ -1061,7 +1107,7 @@ func sfeGenCase(r *Rng, v2 bool, seqno int) *sfeCase {
 	for i, pl := range plans {
 		prevs[i] = pl.prev
 		in := sfeIn{}
-		segwitAsNonWitness := pl.witness && pl.tmpl < tP2TRKEY && r.Chance(35)
+		segwitAsNonWitness := pl.witness && (pl.tmpl < tP2TRKEY && r.Chance(35) || v2 && r.Chance(12))
 		var hash []byte
 		var idx uint32
 		if !pl.witness || segwitAsNonWitness {
@@ -1074,6 +1120,11 @@ func sfeGenCase(r *Rng, v2 bool, seqno int) *sfeCase {
 			}
 			if r.Chance(1) {
 				idx = uint32(len(ptx.Outputs)) + uint32(r.Intn(2)) // index out of range
+			}
+			if v2 && pl.witness && r.Chance(45) {
+				// psetv2 accepts an input that carries the previous transaction and the spent output
+				in.utxoKind = 3
+				in.wu = &transaction.TxOutput{Asset: pl.prev.Asset, Value: pl.prev.Value, Script: pl.prev.Script, Nonce: []byte{0}}
 			}
 		} else {
 			in.utxoKind = 2
@@ -1343,6 +1394,104 @@ func sfeGenCase(r *Rng, v2 bool, seqno int) *sfeCase {
 	return c
 }
 
+
+// Scenario: inputs are added to a packet that already carries signatures (psetv2 only).
+// Some input is signed with an ANYONECANPAY type, then Updater.AddInputs brings one more input,
+// with or without a lock-time requirement; the rest is signed over the transaction as it is
+// then, everything is finalized and extracted. The operations are replayed on the real code
+// while the case is generated, so that every signature is made over Pset.UnsignedTx() as it
+// is at that moment (oracle bit: valid for the transaction being signed at signing time).
+func sfeGenAddInput(r *Rng) *sfeCase {
+	c := &sfeCase{v2: true, txversion: 2}
+	tmpls := []int{tP2WPKH, tP2SHP2WPKH, tP2WSHMS, tP2SHP2WSHMS}
+	nin := 2 + r.Intn(2)
+	var plans []*sfePlanIn
+	mk := func() *sfePlanIn { return sfePlanInput(r, tmpls[r.Intn(len(tmpls))], true) }
+	for i := 0; i < nin; i++ {
+		pl := mk()
+		plans = append(plans, pl)
+		in := sfeIn{utxoKind: 2, txid: r.Bytes(32), index: uint32(r.Intn(5)), seq: 0xfffffffe}
+		in.wu = &transaction.TxOutput{Asset: pl.prev.Asset, Value: pl.prev.Value, Script: pl.prev.Script, Nonce: []byte{0}}
+		in.rs, in.ws = pl.redeem, pl.wscript
+		in.sht = 0x81
+		c.ins = append(c.ins, in)
+	}
+	if r.Chance(25) {
+		c.ins[r.Intn(nin)].hlock = uint32(10 + r.Intn(50))
+	}
+	if r.Chance(50) {
+		v := uint32(r.Pick(0, 7, 400000))
+		c.fallback = &v
+	}
+	for i := 0; i < 1+r.Intn(2); i++ {
+		c.outs = append(c.outs, sfeOut{value: uint64(1 + r.Intn(100000)), asset: r.Bytes(32), script: append([]byte{0x00, 0x14}, r.Bytes(20)...)})
+	}
+	p := c.build2()
+	signAll := func(k int, pl *sfePlanIn, rs, ws []byte, ht uint32) {
+		prevs := make([]*transaction.TxOutput, len(p.Inputs))
+		order := sfeOrderedSubsets(len(pl.privs), pl.m)
+		chosen := order[r.Intn(len(order))]
+		if pl.force != nil {
+			chosen = pl.force // the key set built around a key nobody holds: only the real keys sign
+		}
+		for _, ki := range chosen {
+			utx, err := p.UnsignedTx()
+			if err != nil {
+				panic(err)
+			}
+			sig := []byte{0x30, 0x06, 0x02, 0x01, 0x01, 0x02, 0x01, 0x01, byte(ht)}
+			if k < len(utx.Inputs) {
+				sig = append(ecdsa.Sign(pl.privs[ki], sfeDigest(utx, k, pl, prevs, ht)).Serialize(), byte(ht))
+			}
+			op := sfeOp{kind: "S", k: k, sig: sig, pk: pl.pubs[ki], fmtOK: sfeFmtOK(pl.pubs[ki], sig), rs: rs, ws: ws}
+			c.orc = append(c.orc, sfeOrc{k, op.pk, op.sig, k < len(utx.Inputs)})
+			c.ops = append(c.ops, op)
+			_ = (&psetv2.Signer{Pset: p}).SignInput(k, op.sig, op.pk, rs, ws)
+		}
+	}
+	// which inputs are signed before the new one arrives: none, the last one only, or an
+	// earlier one while the last one stays unsigned
+	signed := map[int]bool{}
+	switch r.Intn(4) {
+	case 0:
+	case 1:
+		signAll(nin-1, plans[nin-1], nil, nil, 0x81)
+		signed[nin-1] = true
+	default:
+		k := r.Intn(nin - 1)
+		signAll(k, plans[k], nil, nil, 0x81)
+		signed[k] = true
+	}
+	npl := mk()
+	ai := sfeOp{kind: "AI", txid: r.Bytes(32), index: uint32(r.Intn(5)), seq: uint32(r.Pick(0, 0xfffffffe, 5))}
+	switch r.Intn(4) {
+	case 0:
+	case 1:
+		ai.tlock = uint32(500000000 + r.Intn(1000))
+	default:
+		ai.hlock = uint32(100 + r.Intn(1000))
+	}
+	c.ops = append(c.ops, ai)
+	_ = (&psetv2.Updater{Pset: p}).AddInputs([]psetv2.InputArgs{sfeInputArgs(&ai)})
+	aw := sfeOp{kind: "AW", k: nin, wu: &transaction.TxOutput{Asset: npl.prev.Asset, Value: npl.prev.Value, Script: npl.prev.Script, Nonce: []byte{0}}}
+	c.ops = append(c.ops, aw)
+	_ = (&psetv2.Updater{Pset: p}).AddInWitnessUtxo(nin, aw.wu)
+	// the new input gets its scripts when it is signed
+	plans = append(plans, npl)
+	for k := 0; k <= nin; k++ {
+		if signed[k] {
+			continue
+		}
+		if k == nin {
+			signAll(k, plans[k], npl.redeem, npl.wscript, 1) // the added input declares no type: SIGHASH_ALL
+		} else {
+			signAll(k, plans[k], nil, nil, 0x81)
+		}
+	}
+	c.ops = append(c.ops, sfeOp{kind: "FA"}, sfeOp{kind: "X"})
+	return c
+}
+
 func genSfe0(r *Rng, n int, w *bufio.Writer) {
 	for i := 0; i < n; i++ {
 		fmt.Fprintln(w, sfeGenCase(r, false, i).line())
@@ -1350,6 +1499,10 @@ func genSfe0(r *Rng, n int, w *bufio.Writer) {
 }
 func genSfe2(r *Rng, n int, w *bufio.Writer) {
 	for i := 0; i < n; i++ {
+		if i%7 == 3 {
+			fmt.Fprintln(w, sfeGenAddInput(r).line())
+			continue
+		}
 		fmt.Fprintln(w, sfeGenCase(r, true, i).line())
 	}
 }
